@@ -25,7 +25,7 @@ import ZkProofs.Props.C01
 set_option linter.unusedSectionVars false
 set_option linter.unusedVariables false
 namespace Zk.C12
-open Zk Res
+open Zk Res Zk.Upd
 
 variable {S G1 G2 GT : Type} [Field S] [DecidableEq S]
 variable [AddCommGroup G1] [Module S G1] [DecidableEq G1]
@@ -39,7 +39,7 @@ variable {env : Env S G1 G2} {pair : G1 →ₗ[S] G2 →ₗ[S] GT}
 theorem calcB_set (base Q1 : G1) (d : S) (Hs : List G1) (ms : List S) (i : Nat) (x : S)
     (h1 : i < Hs.length) (h2 : i < ms.length) :
     calcB base Q1 d Hs (ms.set i x) = calcB base Q1 d Hs ms + (x - ms[i]) • Hs[i] :=
-  Zk.calcB_set base Q1 d Hs ms i x h1 h2
+  Upd.calcB_set base Q1 d Hs ms i x h1 h2
 
 /-- **One update.** Let the generators for `n` messages be `⟨base, Q1 :: Hs⟩`, let `σ` satisfy
 the verification equation `(sk+e) • A = B(ms)` for a scalar vector `ms` of length `n` and ANY
@@ -73,7 +73,7 @@ theorem update_step (hl : Lawful env pair) (cs : Suite G1) (sk : S) (σ : Signat
     rw [List.getElem?_eq_getElem h2] at hold; exact Option.some.inj hold
   have hB : (sk + σ.e) • σ.A + oldS • (-Hs[i]) + newS • Hs[i]
       = calcB base Q1 d Hs (ms.set i newS) := by
-    rw [hA, Zk.calcB_set base Q1 d Hs ms i newS h1 h2, hmi]; module
+    rw [hA, Upd.calcB_set base Q1 d Hs ms i newS h1 h2, hmi]; module
   refine ⟨hlen, ?_, by rw [smul_smul, mul_inv_cancel₀ hz, one_smul]⟩
   refine (updateSignature_ok_iff env cs σ _ sk old new i n).mpr
     ⟨hn, hi, ⟨base, Q1 :: Hs⟩, oldS, newS, Hs[i], (sk + σ.e)⁻¹, hg, ho, hnw, ?_,
@@ -107,7 +107,7 @@ theorem update_step_B_zero (hl : Lawful env pair) (cs : Suite G1) (sk : S) (σ :
   have hmi : ms[i] = oldS := by
     rw [List.getElem?_eq_getElem h2] at hold; exact Option.some.inj hold
   have hB : (sk + σ.e) • σ.A + oldS • (-Hs[i]) + newS • Hs[i] = 0 := by
-    rw [hA, ← hB', Zk.calcB_set base Q1 d Hs ms i newS h1 h2, hmi]; module
+    rw [hA, ← hB', Upd.calcB_set base Q1 d Hs ms i newS h1 h2, hmi]; module
   cases hr : updateSignature env cs σ sk old new i n with
   | err => rfl
   | panic =>
